@@ -12,13 +12,17 @@
    independent tokenizer supplies trees and is compared with encoding/json), and
    strconv (the formatter prints a lexeme that reads back as the same value:
    by construction of num_jv in the model, bit-for-bit in the stream).
-   "Lossless" (the output carries the input's information) is decided on every
-   run by the independent tokenizer comparison; kernel-checked pieces of it: the
-   member scan keeps every foreign member in order and reads reserved members as
-   the last duplicate.  One known finding (Circle features are rewritten in a
+   "Lossless" (the output carries the input's information): proved are (ParseInfo.v,
+   ParseSpec.v) that the object stores, and the writers put right after the two
+   reserved members, exactly the document's non-reserved members with their values
+   in their original order; that the z/m values kept are, position by position and
+   across the rings of a polygon, the ordinates beyond the second of each position
+   cut or zero-padded to the dimensionality the first position declares; and (C07)
+   that kind tree, child order and every x,y are the document's.  The same clause
+   is decided on every run by the independent tokenizer comparison.  One known finding (Circle features are rewritten in a
    fixed form): a Circle is a fixpoint of the theorem too, it is the first
    Parse that drops information. *)
-From GJ Require Import Base JsonConst Json JsonSpec JsonProofs EmitProofs RoundTrip Obj JsonExec ParsedForm.
+From GJ Require Import Base JsonConst Json JsonSpec JsonProofs EmitProofs RoundTrip Obj JsonExec ParsedForm ParseSpec ParseInfo.
 
 Theorem C06_reserved_members_last_duplicate : forall ms,
   k_type (scan_keys ms) = last_member s_type ms /\
@@ -69,7 +73,28 @@ Proof.
   split; [reflexivity|]. eexists. split; [vm_compute; reflexivity|]. split; [cbn; lia|]. split; [discriminate|reflexivity].
 Qed.
 
+(* information clause: foreign members, in order, with their values; a Feature always has a properties member *)
+Theorem C06_foreign_members_written_in_order : forall (fmt : Z -> list Z) fuel o one ms g,
+  parse fuel o one (JObj ms) = POk g -> is_circle g = false ->
+  exists a b, emit_jv fmt g =
+    JObj (a :: b :: filter foreign_key ms ++
+          (if is_feature g then match first_member s_properties (filter foreign_key ms) with Some _ => [] | None => [props_member] end else [])).
+Proof. exact written_members. Qed.
+
+(* information clause: z/m values of the declared dimensionality *)
+Theorem C06_line_values : forall top l ps ex,
+  Forall wfposv l -> parse_line_coords top (Some (JArr l)) = ROk (ps, ex) ->
+  ex = declared_extra l /\ ps = map pos_xy l.
+Proof. exact line_values. Qed.
+Theorem C06_polygon_values : forall top rs rings ex,
+  Forall wfring_pos rs -> (match rs with r1 :: _ => elems r1 <> [] | [] => True end) ->
+  parse_poly_coords top (Some (JArr rs)) = ROk (rings, ex) ->
+  ex = declared_extra (concat (map elems rs)) /\ rings = map ring_pts rs.
+Proof. exact polygon_values. Qed.
+
 Print Assumptions C06_reserved_members_last_duplicate.
+Print Assumptions C06_foreign_members_written_in_order.
+Print Assumptions C06_polygon_values.
 Print Assumptions C06_parse_json_parse_fixpoint.
 Print Assumptions C06_same_kind_and_answers.
 Print Assumptions C06_parsed_objects_are_in_parsed_form.
